@@ -18,9 +18,18 @@ import (
 
 var Root = "/verif" // overridden by VERIF_ROOT (used by background runs from a snapshot)
 
+// Out is where evidence/ and replays/ are written (VERIF_OUT; default Root).
+// Development runs against deliberately broken copies of the library use it
+// so that they never overwrite the evidence of the real tree.
+var Out = ""
+
 func init() {
 	if r := os.Getenv("VERIF_ROOT"); r != "" {
 		Root = r
+	}
+	Out = Root
+	if o := os.Getenv("VERIF_OUT"); o != "" {
+		Out = o
 	}
 }
 
@@ -89,7 +98,7 @@ func NewRun(prop, tier string) *Run {
 	r.tick = make([]uint64, w)
 	r.busy = make([]int32, w)
 	// replays of earlier runs of this property are stale
-	if old, _ := filepath.Glob(filepath.Join(Root, "replays", prop+"-*.json")); len(old) > 0 {
+	if old, _ := filepath.Glob(filepath.Join(Out, "replays", prop+"-*.json")); len(old) > 0 {
 		for _, f := range old {
 			os.Remove(f)
 		}
@@ -302,8 +311,8 @@ func (r *Run) finish() {
 	defer r.mu.Unlock()
 	wall := time.Since(r.Start).Seconds()
 
-	os.MkdirAll(filepath.Join(Root, "replays"), 0o755)
-	os.MkdirAll(filepath.Join(Root, "evidence"), 0o755)
+	os.MkdirAll(filepath.Join(Out, "replays"), 0o755)
+	os.MkdirAll(filepath.Join(Out, "evidence"), 0o755)
 
 	ids := make([]string, 0, len(r.knownHit))
 	for id := range r.knownHit {
@@ -324,7 +333,7 @@ func (r *Run) finish() {
 		v := r.viol[k]
 		b, _ := json.MarshalIndent(v, "", " ")
 		h := sha1.Sum(b)
-		v.Path = filepath.Join(Root, "replays", fmt.Sprintf("%s-%x.json", r.Prop, h[:6]))
+		v.Path = filepath.Join(Out, "replays", fmt.Sprintf("%s-%x.json", r.Prop, h[:6]))
 		os.WriteFile(v.Path, b, 0o644)
 	}
 
@@ -364,7 +373,7 @@ func (r *Run) finish() {
 		ev["assumptions"] = []string{}
 	}
 	b, _ := json.MarshalIndent(ev, "", " ")
-	if err := os.WriteFile(filepath.Join(Root, "evidence", r.Prop+".json"), b, 0o644); err != nil {
+	if err := os.WriteFile(filepath.Join(Out, "evidence", r.Prop+".json"), b, 0o644); err != nil {
 		fmt.Fprintf(os.Stderr, "cannot write evidence: %v\n", err)
 		os.Exit(2)
 	}
